@@ -225,6 +225,9 @@ def solver_cases(ctx, res, prefix, ordered=False):
                 "budget": 20 * c["ticks"] + 1000, "after": 3}
         if c["phase"] == "exhausted":
             case["ticks"] = c["ticks"]
+            # engine-level trace validation: every iteration of Solver::next records the stream
+            # skeleton, the judge steps Search.tla alongside (diagnostic `engine_shape_mismatch`)
+            case["engine"] = True
         if ordered:
             case["ordered"] = True
         out.append(case)
